@@ -28,6 +28,7 @@ SCHEMA.update({
         "api": "API", "naming_convention": "NamingConvention", "reexport_module_id": "str"},
     "safeds_stubgen.docstring_parsing._docstring_parser.DocstringParser": {
         "_DocstringParser__cached_node": "str | None", "_DocstringParser__cached_docstring": "griffe.dataclasses.Docstring | None"},
+    "safeds_stubgen.api_analyzer._ast_visitor.MyPyAstVisitor": {"mypy_file": "mp_nodes.MypyFile | None"},
     "safeds_stubgen.api_analyzer._api.QualifiedImport": {"qualified_name": "str", "alias": "str | None"},
 })
 
